@@ -1331,7 +1331,18 @@ func wgRunOne(b *BatchResult, prop string, seed, run uint64, p wgParams) {
 // violation classes the defect can produce.
 func wgKnown(prop string, x mismatch, wl *wlWG, ref *rgraph) string {
 	const id = "D12-empty-direct-assignment-operand"
-	if !knownActive(id, prop) || wl.Model == nil || !emptyDirectUnderOperator(wl.Model) {
+	const id2 = "D12b-operator-without-operand-edges"
+	if wl.Model == nil {
+		return ""
+	}
+	// the same root cause at its extreme: EVERY operand of the operator is a
+	// direct assignment without type restrictions, the operator node has no
+	// edge at all and the builder rejects the model ("does not have any
+	// terminal type") although the relation reaches user types otherwise
+	if prop == "C05" && x.class == "verdict.rejects_wellfounded" && knownActive(id2, prop) && edgelessOperator(wl.Model) {
+		return id2
+	}
+	if !knownActive(id, prop) || !emptyDirectUnderOperator(wl.Model) {
 		return ""
 	}
 	switch prop {
